@@ -71,6 +71,13 @@ type TopicSpec struct {
 	ReplicationFactor int16
 }
 
+// ConsumerOffsetLookup is implemented by stores that can tell a partition without a
+// committed offset apart from one committed at offset 0 (FetchConsumerOffset reads 0
+// for both). OffsetFetch uses it to answer -1 for a partition that was never committed.
+type ConsumerOffsetLookup interface {
+	LookupConsumerOffset(ctx context.Context, group, topic string, partition int32) (offset int64, metadata string, found bool, err error)
+}
+
 // ConsumerOffset captures a committed offset entry.
 type ConsumerOffset struct {
 	Group     string
@@ -102,8 +109,8 @@ type InMemoryStore struct {
 	mu              sync.RWMutex
 	state           ClusterMetadata
 	offsets         map[string]int64
-	consumerOffsets map[string]int64
-	consumerMeta    map[string]string
+	consumerOffsets map[consumerOffsetID]int64
+	consumerMeta    map[consumerOffsetID]string
 	consumerGroups  map[string]*metadatapb.ConsumerGroup
 	topicConfigs    map[string]*metadatapb.TopicConfig
 }
@@ -113,8 +120,8 @@ func NewInMemoryStore(state ClusterMetadata) *InMemoryStore {
 	return &InMemoryStore{
 		state:           cloneMetadata(state),
 		offsets:         make(map[string]int64),
-		consumerOffsets: make(map[string]int64),
-		consumerMeta:    make(map[string]string),
+		consumerOffsets: make(map[consumerOffsetID]int64),
+		consumerMeta:    make(map[consumerOffsetID]string),
 		consumerGroups:  make(map[string]*metadatapb.ConsumerGroup),
 		topicConfigs:    make(map[string]*metadatapb.TopicConfig),
 	}
@@ -280,8 +287,17 @@ func partitionKey(topic string, partition int32) string {
 	return fmt.Sprintf("%s:%d", topic, partition)
 }
 
-func consumerKey(group, topic string, partition int32) string {
-	return fmt.Sprintf("%s:%s:%d", group, topic, partition)
+// consumerOffsetID identifies a committed offset. A struct key keeps groups and
+// topics apart whatever characters their names contain (a "%s:%s:%d" string does
+// not: group "a:b"/topic "c" and group "a"/topic "b:c" would share a key).
+type consumerOffsetID struct {
+	group     string
+	topic     string
+	partition int32
+}
+
+func consumerKey(group, topic string, partition int32) consumerOffsetID {
+	return consumerOffsetID{group: group, topic: topic, partition: partition}
 }
 
 // CreateTopic implements Store.CreateTopic.
@@ -494,10 +510,22 @@ func (s *InMemoryStore) FetchConsumerOffset(ctx context.Context, group, topic st
 		return 0, "", ctx.Err()
 	default:
 	}
+	offset, metadata, _, err := s.LookupConsumerOffset(ctx, group, topic, partition)
+	return offset, metadata, err
+}
+
+// LookupConsumerOffset implements ConsumerOffsetLookup.
+func (s *InMemoryStore) LookupConsumerOffset(ctx context.Context, group, topic string, partition int32) (int64, string, bool, error) {
+	select {
+	case <-ctx.Done():
+		return 0, "", false, ctx.Err()
+	default:
+	}
 	s.mu.RLock()
 	defer s.mu.RUnlock()
 	key := consumerKey(group, topic, partition)
-	return s.consumerOffsets[key], s.consumerMeta[key], nil
+	offset, found := s.consumerOffsets[key]
+	return offset, s.consumerMeta[key], found, nil
 }
 
 // ListConsumerOffsets implements Store.ListConsumerOffsets.
@@ -511,14 +539,10 @@ func (s *InMemoryStore) ListConsumerOffsets(ctx context.Context) ([]ConsumerOffs
 	defer s.mu.RUnlock()
 	offsets := make([]ConsumerOffset, 0, len(s.consumerOffsets))
 	for key, offset := range s.consumerOffsets {
-		group, topic, partition, ok := parseConsumerKey(key)
-		if !ok {
-			continue
-		}
 		offsets = append(offsets, ConsumerOffset{
-			Group:     group,
-			Topic:     topic,
-			Partition: partition,
+			Group:     key.group,
+			Topic:     key.topic,
+			Partition: key.partition,
 			Offset:    offset,
 		})
 	}
